@@ -512,9 +512,11 @@ impl<'a> TmplGen<'a> {
         let mut s = String::new();
         if self.cfg.allow_scripts && self.rng.chance(1, 3) {
             let name = self.rng.pick(&["m", "a", "item"]).to_string();
+            // valid JavaScript bodies with every kind of ending (comments, no final newline / semicolon)
+            let tail = *self.rng.pick(&["", ";", " // trailing comment", "\n// c\n", " /* c */", "\n", "\n/* } */"]);
             s.push_str(&format!(
-                "<wxs module=\"{}\">exports.f = function(x){{ return 'f(' + x + ')' }}; exports.k = 3; exports.o = {{ a: [7, 8] }}</wxs>\n",
-                name
+                "<wxs module=\"{}\">exports.f = function(x){{ return 'f(' + x + ')' }}; exports.k = 3; exports.o = {{ a: [7, 8] }}{}</wxs>\n",
+                name, tail
             ));
             self.modules.push(name.clone());
             self.scopes.push(name);
